@@ -295,10 +295,11 @@ CLAIMED["C25"] = dict(
         "number of uploaded chunks): where the chunk list is handed on, every uploaded chunk has been shifted by exactly the recorded file size minus the uploaded bytes "
         "- i.e. an append places the new data at the size the file had before and grows the recorded size by the uploaded bytes, a plain write shifts nothing and "
         "records exactly the uploaded bytes (exact 64-bit arithmetic). And on FilerServer.uploadReaderToChunks (the chunk uploads in goroutines abstracted, the "
-        "reading loop followed): an error of the request body - as opposed to its end - is returned as an error, so a body that fails part-way is not committed.",
-   note="The offset arithmetic of saveMetaData and the error path of the body reading loop: which bytes go into which chunk, the inline-storage decision (the seeded "
-        "change C25-m1 lives there), the upload RPCs, 'current end of the file' as max(chunk end, recorded size) are not decided. One defect repaired (a body that "
-        "failed part-way was committed as a truncated file). Assumed: a looked-up entry is "
+        "reading loop followed): an error of the request body - as opposed to its end - is returned as an error, so a body that fails part-way is not committed; "
+        "content is kept in the entry itself only from a first read that came back shorter than a chunk, i.e. from an exhausted body.",
+   note="The offset arithmetic of saveMetaData, the error path and the inline decision of the body reading loop: which bytes go into which chunk, the upload RPCs, "
+        "'current end of the file' as max(chunk end, recorded size) are not decided. Two defects repaired (a body that failed part-way was committed as a truncated "
+        "file; a body longer than one chunk was cut to its first chunk when the inline limit exceeds the chunk size). Assumed: a looked-up entry is "
         "decoded afresh (shares no chunk array with the request), lookups and query parsing do not modify the uploaded chunks, stored sizes are below 2^61; memory "
         "safety of the abstracted function is assumed. " + TRUST,
    design="DESIGN.md §4 C25")
